@@ -58,7 +58,7 @@ for (mod, f, ty, const, simp, dimp, width) in T:
     w('//@@ nowhere')
     w('//@@ param serializer : SerS')
     w('//@@ ret Result<SerOk, ErrS>')
-    w('//@@ subst `serializer.serialize_newtype_struct(%s, __E1)` => `serializer.serialize_newtype_struct(%s, payload_of(self))` rule=R9' % (const, const))
+    w('//@@ subst `serializer.serialize_newtype_struct(__E1, __E2)` => `serializer.serialize_newtype_struct(__E1, payload_of(self))` rule=R9')
     w('//@@ spec')
     w('    ensures r is Ok ==> r->Ok_0.announced@ == %s@,       // %s a %s announces itself to the serializer under ITS name (and under no other type\'s): the serializer then writes it with the constructor of that type (unit SERENTRY)' % (const, L('newtype.own-name-written'), ty))
     w('//@@ end')
@@ -71,7 +71,7 @@ for (mod, f, ty, const, simp, dimp, width) in T:
         w('//@@ nowhere')
         w("//@@ param deserializer : DeS<'a>")
         w('//@@ ret Result<%s, ErrS>' % ty)
-        w('//@@ subst `deserializer.deserialize_newtype_struct(%s, __E1)` => `deserializer.deserialize_newtype_struct(%s, VisS {})` rule=R9' % (const, const))
+        w('//@@ subst `deserializer.deserialize_newtype_struct(__E1, __E2)` => `deserializer.deserialize_newtype_struct(__E1, VisS {})` rule=R9')
         w('//@@ spec')
         w('    ensures (*final(deserializer.log))@ == (*old(deserializer.log))@.push(%s@),       // %s and asks the deserializer for a value under the SAME name: the deserializer reads it with the decoder of that type (unit DEENTRY)' % (const, L('newtype.own-name-read')))
         w('//@@ end')
